@@ -101,6 +101,22 @@ def chkVal : Val F → Except Err (Val F)
 def lookupVar (vars : List (VarRec F)) (x : String) : Option (VarRec F) :=
   vars.find? (·.name == x)
 
+/-- a stored value is only readable at the type it was declared with, so the machine needs no
+global well-typedness invariant on states -/
+def hasTy : Ty → Val F → Bool
+  | .int, .int _ => true
+  | .float, .flt _ => true
+  | .bool, .bool _ => true
+  | .ptr _, .ptr _ _ => true
+  | .ptr _, .null => true
+  | .ptr .tensor, .tensor _ => true
+  | _, _ => false
+
+def hasElemTy : ElemTy → Val F → Bool
+  | .int, .int _ => true
+  | .float, .flt _ => true
+  | _, _ => false
+
 def readBlock (σ : State F) (b : Nat) (off : Int) : Except Err (Val F) :=
   match σ.heap[b]? with
   | none => .error .null
@@ -109,7 +125,7 @@ def readBlock (σ : State F) (b : Nat) (off : Int) : Except Err (Val F) :=
     else if off < 0 || off ≥ blk.len then .error .oob
     else match getCell off.toNat blk.cells with
       | none => .error .uninit
-      | some v => chkVal v
+      | some v => if hasElemTy blk.ty v then chkVal v else .error .typeError
 
 inductive Num (F : Type) where
   | i (v : Int)
@@ -177,7 +193,7 @@ def evalE (σ : State F) : Expr F → Except Err (Val F)
     | none => .error .unbound
     | some r => match r.val with
       | none => .error .uninit
-      | some v => chkVal v
+      | some v => if hasTy r.ty v then chkVal v else .error .typeError
   | .attr t a => do
     match ← evalE σ t with
     | .tensor k =>
